@@ -714,13 +714,13 @@ int gd_uninclude(DIRFILE* D, int fragment_index, int del)
    * resizing D->entry */
   old_count = D->n_entries;
   for (i = o = 0; i < old_count; ++i)
-    if (_GD_ContainsFragment(f, nf, D->entry[i]->fragment_index)) {
-      if (D->entry[i]->e->n_meta >= 0)
-        D->n_entries--;
-
+    if (_GD_ContainsFragment(f, nf, D->entry[i]->fragment_index))
       _GD_FreeE(D, D->entry[i], 1);
-    } else
+    else
       D->entry[o++] = D->entry[i];
+
+  /* every entry, metafields included, has a slot in D->entry */
+  D->n_entries = o;
 
   /* Flag the parent as modified */
   D->fragment[parent].modified = 1;
